@@ -2079,7 +2079,7 @@ func TestC08(t *testing.T) {
 		return
 	}
 	col := NewCollector("C08", "Check.C08",
-		"submit scenarios: kind x 1-5 scripted nodes (accept / reject with a structured error body / slow / hang, per chunk for attestations; every method fails with the context's error once its context is finished; the version endpoint serviceInfo queries answers at once, late or never, before and after the payload is handed over) x concurrency x payload length x the caller's context (without deadline, or with one after / at / before the configured timeout, the nodes then honouring or ignoring it), run on the real multinode service in a synctest bubble; plus util.Scatter and the immediate submitter. Non-trivial = the submission passes the empty-payload guard and at least one node does something other than answer its version request at once and accept before the timeout, or the caller's context has a deadline (scatter/immediate: non-empty input); distinct by input text")
+		"submit scenarios: kind x 1-5 scripted nodes (accept / reject with a structured error body / slow / hang, per chunk for attestations; every method fails with the context's error once its context is finished; the version endpoint serviceInfo queries answers at once, late or never, before and after the payload is handed over) x concurrency x payload length x the caller's context (without deadline, or with one after / at / before the configured timeout, the nodes then honouring or ignoring it), run on the real multinode service in a synctest bubble, its client monitor answering at once or (without a caller's deadline) taking fake time in every ClientOperation call; plus util.Scatter and the immediate submitter (payloads of up to 2500 items, the node answering per request by the items it carries). Non-trivial = the submission passes the empty-payload guard and at least one node does something other than answer its version request at once and accept before the timeout, or the caller's context has a deadline (scatter/immediate: non-empty input); distinct by input text")
 	n := EnvInt("VERIF_N", 800)
 	thorough := os.Getenv("VERIF_TIER") == "thorough"
 	var ins []Input
